@@ -10,8 +10,11 @@ A hand translation of the bash in `data/lib/pkgcore/ebd/ebuild-default-functions
 eclass set).
 
 An ebuild or eclass is a list of `Stmt`: assignments (`V="…"`), appends (`V+=" …"`, `V="${V} …"`),
-`unset V`, function definitions, `EXPORT_FUNCTIONS`, and `inherit` with the inherited eclasses' bodies
+`unset V`, function definitions, `EXPORT_FUNCTIONS p₁ … pₙ`, and `inherit` with the inherited eclasses' bodies
 inlined (the harness resolves names to bodies; an eclass inherited twice is sourced twice, as in bash).
+`EXPORT_FUNCTIONS` is only the call: it `eval`s `p() { ${ECLASS}_p "$@"; }` for every argument, so `p` is a
+defined function from then on, whether `${ECLASS}_p` has been defined before the call, is defined after it,
+or never (the `<eclass>_<phase>` functions themselves are ordinary `func` statements).
 The shell's variable store is a function `name → Option value`.
 -/
 namespace Pkgcore.C49
@@ -23,7 +26,7 @@ inductive Stmt
   | append (v : Str) (val : Str)
   | unset (v : Str)
   | func (name : Str)
-  | export (phase : Str)
+  | export (phases : List Str)
   | inherit (ecls : List (Str × List Stmt))
   deriving Repr
 
@@ -52,12 +55,12 @@ def run (A : List Str) (depth : Nat) (me : Str) : List Stmt → St → St
   | [], st => st
   | s :: rest, st => run A depth me rest (step A depth me s st)
 /-- one statement -/
-def step (A : List Str) (depth : Nat) (me : Str) : Stmt → St → St
+def step (A : List Str) (depth : Nat) (_me : Str) : Stmt → St → St
   | .set v val, st => { st with vars := setVar st.vars v (some val) }
   | .append v val, st => { st with vars := setVar st.vars v (some ((st.vars v).getD [] ++ ' ' :: val)) }
   | .unset v, st => { st with vars := setVar st.vars v none }
   | .func name, st => { st with funcs := st.funcs ++ [name] }
-  | .export phase, st => { st with funcs := st.funcs ++ [me ++ '_' :: phase, phase] }
+  | .export phases, st => { st with funcs := st.funcs ++ phases }   -- the stubs; `$ECLASS` (`_me`) only occurs in their bodies
   | .inherit ecls, st =>
     let st := if depth = 0 then { st with direct := st.direct ++ ecls.map (·.1) } else st
     inheritAll A depth ecls st
